@@ -517,3 +517,11 @@ def run(cx, rep):
         if pairs:
             rep.ob("C01.5", "frontend-names", all(k == v for k, v in pairs.items()) and set(pairs) == TYPED_ARRAYS,
                    "the frontend maps builtin names to typed-array kinds inconsistently: %s" % {k: v for k, v in pairs.items() if k != v}, F.fns[g].loc(), sample={"pairs": len(pairs)})
+
+    # ---------------------------------------------------------------- C01.9
+    rep.rule("C01.9", "number / string twins of the frontend and the IR agree")
+    import twins
+    twins.twin_rule(cx, rep, "C01.9", r"frontend/|ast/", floor=4)
+    # ---------------------------------------------------------------- C01.10
+    rep.rule("C01.10", "validate() reads every constructor argument it read on the reviewed tree")
+    ts_common.field_matrix_rule(cx, rep, "C01.10", ['validate'])
